@@ -61,7 +61,7 @@ func c07Run(c *mon.Ctx, r *mon.Rand) {
 		rec = pr.Recorder
 		opts.Reporter = pr
 	}
-	shards := []uint{1, 1, 2, 3, 16}[r.Intn(5)]
+	shards := []uint{1, 1, 2, 3, 16, 0}[r.Intn(6)] // 0 = the public constructor (GOMAXPROCS shards)
 	interval := time.Duration(0)
 	if r.Chance(1, 3) && !c.Race {
 		interval = 0 // deadlock probe configuration: no ticker, runtime detects all-asleep
@@ -92,7 +92,7 @@ func c07Run(c *mon.Ctx, r *mon.Rand) {
 		}
 		opts.SanitizeOptions = &so
 	}
-	root, closer := tally.VerifNewRootScope(opts, interval, shards)
+	root, closer := vNewRoot(opts, interval, shards)
 	desc := map[string]interface{}{"sanitizer": withSan, "cached": cached, "shards": shards, "interval_us": interval.Microseconds(), "workers": nWorkers, "passers": nPassers,
 		"epochs": epochs, "ops_per_epoch": opsPerEpoch, "delay_strength": prof.Strength}
 	c.LogCase(fmt.Sprint(desc))
